@@ -95,7 +95,7 @@ CHECKS = {
          "DESIGN.md §5 C13, §4 E4"),
  "C14": ("mc-lang", "fault_enumeration",
          "exhaustive single-fault enumeration around valid documents and valid package binaries (every token mutant, prefix, character substitution, multi-byte insertion; every byte prefix, bit flip and byte substitution), nesting families in supervised subprocesses; panic/abort/hang/span oracle on the real parser, resolver, decoder and encoder",
-         "Text half: around every base document of the C12 corpus (depth 3) and every repository .wac file: every single-token mutant, subtree deletion, layout deviation, every prefix, every single-character substitution by {NUL, quote, slash, DEL}, every insertion of 12 multi-byte scalars at every token boundary, truncation into a comment, and parametric nesting families at depths 2^1..2^17 (supervised workers; death by signal or 5 s silence is a violation) - ~5.5 M texts. parse, then resolve (empty package set) and encode must return without panic; every span and every error label must satisfy offset+len <= len on character boundaries; every error must render with miette's graphical handler. Byte half: every prefix, single-bit flip and substitution by {00,01,7F,80,FF} of 14 seed binaries (library components, core module, headers; ~74k byte strings quick) decoded with Package::from_bytes in supervised chunk workers, and decodable ones instantiated and encoded in both modes; 795/5k document x package pairings (missing, swapped, corrupted) and every ordered list of 1..3 (thorough 4) packages of the versioned-import library instantiated with implicit arguments, alone and after an explicit import statement under each of 6 versioned interface names with a merging / conflicting type (~4.6k / 60k documents), resolved and encoded. Every corpus text is additionally rendered in the tightest layout the reference tokenizer still splits identically (~2.7 M more texts quick).",
+         "Text half: around every base document of the C12 corpus (depth 3) and every repository .wac file: every single-token mutant, subtree deletion, layout deviation, every prefix, every single-character substitution by {NUL, quote, slash, DEL}, every insertion of 12 multi-byte scalars at every token boundary, truncation into a comment, the same insertions after a comment of multi-byte characters, every identifier replaced by one identifier, all ordered pairs of interface / world / top-level items defining the same name (300 documents), and parametric nesting families at depths 2^1..2^17 (supervised workers; death by signal or 5 s silence is a violation) - ~5.5 M texts. parse, then resolve (empty package set) and encode must return without panic; every span and every error label must satisfy offset+len <= len on character boundaries; every error must render with miette's graphical handler. Byte half: every prefix, single-bit flip and substitution by {00,01,7F,80,FF} of 14 seed binaries (library components, core module, headers; ~74k byte strings quick) decoded with Package::from_bytes in supervised chunk workers, and decodable ones instantiated and encoded in both modes; 795/5k document x package pairings (missing, swapped, corrupted) and every ordered list of 1..3 (thorough 4) packages of the versioned-import library instantiated with implicit arguments, alone and after an explicit import statement under each of 6 versioned interface names with a merging / conflicting type (~4.6k / 60k documents), resolved and encoded. Every corpus text is additionally rendered in the tightest layout the reference tokenizer still splits identically (~2.7 M more texts quick).",
          "Single faults only (no pairs of faults); invalid UTF-8 is not representable as &str. Hangs are detected by a 5 s silence bound in workers. 4 known findings (deep-nesting stack overflow, miette width panic, encoder panic on a decodable mutant) are listed in known-findings.json.",
          "DESIGN.md §5 C14, §4 E6"),
  "C18": ("mc-env", "exploration",
